@@ -222,6 +222,44 @@ def check_segment_predicates(ctx: Ctx) -> None:
                 ctx.ob("R-LAYOUT-Y3", f"{fac.qual} [wrapper] :: block-content heuristic enabled by tag adjacency only", by_adjacency and not enabling and not regex_ops,
                        "the list / table-row heuristic may be switched on only by a tag at the start or end of a line of the paragraph; enabled here through "
                        f"{enabling + regex_ops or 'nothing that looks at line ends'}: a tag in the middle of a line would make unrelated soft breaks significant", where(w, t))
+                # ... and it must be *off* without one: with every tag-adjacency predicate answering "no", the disjunct is false -
+                # whatever its boolean structure (`has_tags and a or b` leaves `b` unguarded)
+                def off(e: ast.AST, depth_: int = 0):
+                    """value of the expression when no line of the paragraph touches a tag: True / False / None (depends on more)"""
+                    if isinstance(e, ast.Constant):
+                        return bool(e.value)
+                    if isinstance(e, ast.UnaryOp) and isinstance(e.op, ast.Not):
+                        v_ = off(e.operand, depth_)
+                        return None if v_ is None else not v_
+                    if isinstance(e, ast.BoolOp):
+                        vs_ = [off(v_, depth_) for v_ in e.values]
+                        if isinstance(e.op, ast.And):
+                            return False if any(v_ is False for v_ in vs_) else (True if all(v_ is True for v_ in vs_) else None)
+                        return True if any(v_ is True for v_ in vs_) else (False if all(v_ is False for v_ in vs_) else None)
+                    if isinstance(e, ast.Call):
+                        t_ = prog.resolve_call(w, e)
+                        if isinstance(t_, list) and len(t_) == 1 and t_[0].qual in tag_preds:
+                            return False
+                        if isinstance(e.func, ast.Name) and e.func.id == "any" and len(e.args) == 1 and isinstance(e.args[0], (ast.GeneratorExp, ast.ListComp)):
+                            return False if off(e.args[0].elt, depth_) is False else None
+                    if isinstance(e, ast.IfExp):
+                        c_ = off(e.test, depth_)
+                        if c_ is not None:
+                            return off(e.body if c_ else e.orelse, depth_)
+                    if isinstance(e, ast.Name) and depth_ < 4:
+                        try:
+                            x_ = expand_expr(prog, w, e, at, strict=False, depth=1)
+                        except Exception:  # noqa: BLE001
+                            return None
+                        if not (isinstance(x_, ast.Name) and x_.id == e.id):
+                            return off(x_, depth_ + 1)
+                    return None
+
+                v_off = off(d)
+                ctx.ob("R-LAYOUT-Y3", f"{fac.qual} [wrapper] :: block-content heuristic is off without a tag-adjacent line", v_off is False,
+                       "with no tag at the start or end of any line of the paragraph this disjunct must be false (the heuristic only exists to keep "
+                       f"lists / tables between tag lines apart); it evaluates to {'something that still depends on the line' if v_off is None else v_off}: "
+                       "plain paragraphs would keep the newline before a line that merely looks like a table row or list item", where(w, t))
             # (keyed by what the disjunct consults, in source order - not by the names of the temporaries it is spelled with)
             what = "the block-content heuristics" if is_block else ("tag adjacency" if is_tag else "something else")
             ctx.ob("R-LAYOUT-Y3", f"{fac.qual} [wrapper] :: segment boundary disjunct consulting {what}", is_tag and not is_block,
@@ -605,6 +643,31 @@ def check_frontmatter_flow(ctx: Ctx) -> None:
         if isinstance(n.ast, ast.Assign) and isinstance(v_, ast.Name) and v_.id in (cvar, fm.params[0]):
             continue
         extra.append(n)
+    # ... with the same options: when the two cases return separately, each result depends on the same parameters
+    arm_params: dict[bool, set[str]] = {}
+    arm_returns: dict[bool, int] = {}
+    for n_ in flow.cfg.nodes:
+        arm = None
+        for b, lab in _all_guards(prog, fm, n_):
+            if b.kind == "test" and isinstance(b.ast, ast.expr) and any(isinstance(x, ast.Name) and x.id == fvar for x in ast.walk(b.ast)):
+                pol = lab == "T"
+                t_ = b.ast
+                while isinstance(t_, ast.UnaryOp) and isinstance(t_.op, ast.Not):
+                    pol, t_ = not pol, t_.operand
+                arm = pol
+        if arm is None:
+            continue
+        if n_.kind == "stmt" and isinstance(n_.ast, ast.Return):
+            arm_returns[arm] = arm_returns.get(arm, 0) + 1
+        for ex in flow.node_exprs(n_):
+            arm_params.setdefault(arm, set()).update(x.id for x in ast.walk(ex) if isinstance(x, ast.Name) and x.id in fm.params and x.id != fm.params[0])
+    if not (arm_returns.get(True) and arm_returns.get(False)):
+        arm_params = {}  # (one common exit: there are no two separately formatted cases to compare)
+    if True in arm_params and False in arm_params:
+        only = sorted(arm_params[True] ^ arm_params[False])
+        ctx.ob("R-FRONTMATTER", f"{fm.qual} :: body is formatted with the same options with and without frontmatter", not only,
+               f"the result returned when a frontmatter block is present and the one returned when it is absent depend on different options ({only}): "
+               "the same body is formatted differently depending on the presence of the block", where(fm, fm.node))
     ctx.ob("R-FRONTMATTER", f"{fm.qual} :: body is prepared the same way with and without frontmatter", not extra,
            "under the frontmatter-presence test the text to be formatted may only be switched to the content half; "
            + ("; ".join(f"`{norm(n.ast)[:60]}` does more" for n in extra) if extra else "it is"), where(fm, extra[0] if extra else fm.node))
